@@ -666,6 +666,18 @@ def scen_selector(fset, spec, ev, rng):
     """Scen object for the event (list of scenario positions)."""
     labels = spec['labels']
     Sn = spec['S']
+    if ev[0] > 0 and (sum(ev) + 3 * len(ev) + Sn) % 3 == 0:
+        # chained selection: a tail of the scenarios first, positions relative to it afterwards
+        # (decided without a random draw so that the other cases keep theirs)
+        a = ev[0]
+        sub = fset.iloc[a:] if (labels is None or len(ev) % 2) else fset.loc[labels[a]:]
+        rel = [i - a for i in ev]
+        try:
+            return sub.iloc[rel] if len(rel) > 1 else sub.iloc[rel[0]]
+        except IndexError:
+            # loud in the current tree: the chained selector indexes the probabilities of the
+            # tail with absolute scenario numbers; fall back to a direct selection
+            pass
     if len(ev) == Sn and rng.random() < 0.5:
         return fset
     if labels is None:
